@@ -26,6 +26,7 @@ StepAcc(input, acc, st) ==
   IF acc.bad # "" THEN acc
   ELSE LET t == Step(acc.s, input) IN
        IF acc.outside THEN acc
+       ELSE IF t.st = "undef" /\ t.why = "chanmix" THEN [acc EXCEPT !.outside = TRUE]
        ELSE IF t.st = "undef" THEN [acc EXCEPT !.bad = "executed an instruction the ISA leaves undefined: " \o t.why, !.k = @ + 1]
        ELSE IF ~(t.pc >= 0 /\ t.pc < 4 * MemWords) \/ (Instr(acc.s) \div 16 = 5 /\ ~(t.a >= 0 /\ t.a < 4 * MemWords))
             THEN [acc EXCEPT !.outside = TRUE]
